@@ -79,6 +79,13 @@ CLAIMED = {
              "monitor over all 80 entry points, and the context manager on every exit path.",
         design_ref='DESIGN.md §3 C15',
         technique='Lean 4 proof (induction on arrivals; log-shape invariant) + differential/metamorphic history suite'),
+    'C18': dict(
+        text="The whole edition x feature matrix (check_subfunction_valid for every byte x 3 editions, the node-id rule for every control type, memory selection, session "
+             "reply lengths, construction and set_config(s) for candidate editions) is extracted from the running code on every run and proved equal to the Model by the kernel; "
+             "Lean theorems relate the Model to the Spec for every cell (decide over the full matrix / general lemmas), prove that a refused request touches nothing, and prove by "
+             "induction that the edition in force after any sequence of configuration changes is one of the three. Client-level matrix and configuration histories run on the real client.",
+        design_ref='DESIGN.md §3 C18',
+        technique='Lean 4 proof (decide over the complete matrix, induction over config histories) + extracted-matrix tie + exhaustive client-level suite'),
 }
 
 PENDING_REASON = 'check not built yet in this round (build order in DESIGN.md §7); not claimed until its theorem and tie exist'
